@@ -444,10 +444,6 @@ def qr_move_scp(asce, ctx, msg):
     ds = dsutils.decode(msg.data_set, ctx.supported_ts.is_implicit_VR,
                         ctx.supported_ts.is_little_endian)
 
-    # make response
-    rsp = dimsemessages.CMoveRSPMessage()
-    rsp.message_id_being_responded_to = msg.message_id
-    rsp.sop_class_uid = msg.sop_class_uid
     remote_ae, nop, gen = asce.ae.on_receive_move(ctx, ds, msg.move_destination)
     if not nop:
         # nothing to move
@@ -467,6 +463,11 @@ def qr_move_scp(asce, ctx, msg):
             if status.is_warning:
                 warning += 1
             completed += 1
+            # one response object per sub-operation: send() only queues the message, it is
+            # encoded later by the DUL thread and must not be modified in the meantime
+            rsp = dimsemessages.CMoveRSPMessage()
+            rsp.message_id_being_responded_to = msg.message_id
+            rsp.sop_class_uid = msg.sop_class_uid
             rsp.status = int(statuses.C_MOVE_PENDING)
             rsp.num_of_remaining_sub_ops = nop - completed
             rsp.num_of_completed_sub_ops = completed
